@@ -144,3 +144,47 @@ def exhaustive_plain_cases(max_o, max_s):
                 for osh in shapes(no):
                     for sps in itertools.product(lv, repeat=no):
                         yield {"S": S, "O": fill_object(osh, iter([{"s": s} for s in sps]))}
+
+
+def subtree_leaf_indices(shape, start=0):
+    """[(node leaf-index list)] for every node of a shape, pre-order; returns (list, next index)."""
+    if not shape:
+        return [[start]], start + 1
+    out = []
+    mine = []
+    idx = start
+    for c in shape:
+        sub, idx = subtree_leaf_indices(c, idx)
+        mine += sub[0]
+        out += sub
+    return [mine] + out, idx
+
+
+def clade_syntenies(rng, oshape, nfam, unordered=True):
+    """Family content organised by clades: each family is confined to the leaves below a random
+    node of the object tree (so gains happen at various depths), every leaf keeps >= 1 family."""
+    nodes, n = subtree_leaf_indices(oshape)
+    fams = [[] for _ in range(n)]
+    for f in range(nfam):
+        clade = rng.choice(nodes if rng.random() < 0.8 else [nodes[0]])
+        k = rng.randint(1, len(clade))
+        for i in rng.sample(clade, k):
+            fams[i].append(f)
+    for i in range(n):
+        if not fams[i]:
+            fams[i].append(rng.randrange(nfam))
+    order = list(range(nfam))
+    if not unordered:
+        rng.shuffle(order)
+    return [[f for f in order if f in set(l)] for l in fams]
+
+
+def clade_case(rng, min_o=6, max_o=8, max_s=3, nfam=4, unordered=True, costs=None):
+    """Larger, mostly balanced object trees over few species with clade-structured families."""
+    no = rng.randint(min_o, max_o)
+    S = rand_shape(rng, rng.randint(1, max_s))
+    oshape = rand_shape(rng, no, rng.choice(["bal", "bal", None]))
+    sps = rand_species_assignment(rng, S, no)
+    syn = clade_syntenies(rng, oshape, nfam, unordered)
+    O = fill_object(oshape, iter([{"s": s, "f": f} for s, f in zip(sps, syn)]))
+    return {"S": S, "O": O, "costs": costs or rand_costs(rng, plain=False)}
